@@ -399,7 +399,8 @@ class cstruct:
             (Pointer,),
             self.pointer.size,
             alignment=self.pointer.alignment,
-            attrs={"type": target},
+            # The size and alignment are those of the current pointer type, it reads and writes as that type as well
+            attrs={"type": target, "ptype": self.pointer},
         )
 
     def _make_struct(
